@@ -216,4 +216,128 @@ theorem swMoment_actual (n : Node) (op : Op) (x : Sw) :
     · right; exact ⟨hb1, by rw [h, hb2]⟩
     · rw [hb2] at h1; cases h1
 
+
+/-! ## 2. visible file health changes only when a scan covering the file completes -/
+
+theorem fileEff_name (n : Node) (op : Op) (G : Folder) (f : File) : (fileEff n op G f).name = f.name := by
+  cases op <;> simp only [fileEff]
+  case tick =>
+    split
+    · by_cases h1 : G.restoreCd = 1 <;> by_cases h2 : G.scanCd = 1 <;> by_cases h3 : n.powerPhase.scanCd = 1 <;>
+        simp [h1, h2, h3]
+    · rfl
+  case folder F r => split <;> cases r <;> simp
+  case file F nm r =>
+    split
+    · exact f.handle_name r
+    · rfl
+  all_goals (first | rfl | (split <;> simp))
+
+/-- A scan covering file `f` of folder `G` completes in step `op`: its own `scan` request is accepted (node ON, folder
+and file live), or — in a tick of a powered-on node, for a live file of a live folder — the whole-node scan fans out
+or the folder's timed scan reaches its last step. -/
+def fileScanCompletes (n : Node) (op : Op) (G : Folder) (f : File) : Bool :=
+  match op with
+  | .tick =>
+    n.powerPhase.power = .on && !G.deleted && !f.deleted && (n.powerPhase.scanCd = 1 || G.scanCd = 1)
+  | .file F nm .scan => n.power = .on && G.name = F && !G.deleted && f.name = nm && !f.deleted
+  | _ => false
+
+theorem fileEff_visible (n : Node) (op : Op) (G : Folder) (f : File) :
+    (fileEff n op G f).visible = if fileScanCompletes n op G f then f.actual else f.visible := by
+  cases op <;> simp only [fileEff, fileScanCompletes]
+  case tick =>
+    by_cases hon : n.powerPhase.power = .on <;> by_cases hd : G.deleted = false <;>
+      by_cases h1 : G.restoreCd = 1 <;> by_cases h2 : G.scanCd = 1 <;> by_cases h3 : n.powerPhase.scanCd = 1 <;>
+      by_cases hfd : f.deleted = true <;> simp [hon, hd, h1, h2, h3, hfd, File.scan_visible]
+  case folder F r => split <;> cases r <;> simp
+  case file F nm r =>
+    by_cases hr : r = .scan
+    · subst hr
+      by_cases hon : n.power = .on <;> by_cases hn : G.name = F <;> by_cases hd : G.deleted = false <;>
+        by_cases hf : f.name = nm <;> by_cases hfd : f.deleted = true <;>
+        simp [hon, hn, hd, hf, hfd, File.handle, File.scan_visible]
+    · have : (match r with | .scan => (decide (n.power = .on) && decide (G.name = F) && !G.deleted && decide (f.name = nm) && !f.deleted) | _ => false) = false := by
+        cases r <;> first | rfl | exact absurd rfl hr
+      split
+      · rw [f.handle_visible r hr]
+        cases r <;> first | rfl | exact absurd rfl hr
+      · cases r <;> first | rfl | exact absurd rfl hr
+  all_goals (first | (simp; done) | (split <;> simp))
+
+theorem folderEff_name (n : Node) (op : Op) (G : Folder) : (folderEff n op G).name = G.name := by
+  cases op <;> simp only [folderEff]
+  case tick =>
+    unfold folderTickEff Folder.tick
+    split
+    · simp only []
+      split
+      · split
+        · simp
+        · rw [(Folder.restoreTick_rest _).1, (Folder.scanTick_rest _).1]; simp
+      · split
+        · rfl
+        · rw [(Folder.restoreTick_rest _).1, (Folder.scanTick_rest _).1]
+    · rfl
+  case folder F r =>
+    split
+    · split
+      · cases r <;> simp [Folder.handle, Folder.scan, Folder.repair, Folder.restore, Folder.corrupt] <;>
+          (repeat' split) <;> rfl
+      · rfl
+    · rfl
+  case fsRestoreFolder F =>
+    split
+    · split
+      · unfold Folder.restore; split <;> rfl
+      · rfl
+    · rfl
+  all_goals (first | rfl | ((repeat' split) <;> rfl))
+
+/-- **C14 shape.** No operation adds, removes, renames or reorders software items, folders or files. -/
+theorem C14_shape (n : Node) (op : Op) :
+    (n.apply op).sws.map (·.name) = n.sws.map (·.name) ∧
+    (n.apply op).folders.map (fun G => (G.name, G.files.map (·.name))) =
+      n.folders.map (fun G => (G.name, G.files.map (·.name))) := by
+  constructor
+  · rw [apply_sws, List.map_map]
+    apply List.map_congr_left
+    intro x _
+    exact (swEff_name n op x).1
+  · rw [apply_folders, List.map_map]
+    apply List.map_congr_left
+    intro G _
+    simp only [Function.comp_def, folderEff_name, folderEff_files, List.map_map, Prod.mk.injEq, true_and]
+    apply List.map_congr_left
+    intro f _
+    exact fileEff_name n op G f
+
+/-- **C14 (files, one step, any state).** If the visible health of the `k`-th file of the `j`-th folder differs after
+an operation, then a scan covering that file completed in that step, and the new visible value is the file's actual
+health before the step (no operation changes a file's actual health before scanning it within the same step). -/
+theorem C14_file_visible_only_by_scan (n : Node) (op : Op) (j k : Nat) (G G' : Folder) (f f' : File)
+    (hG : n.folders[j]? = some G) (hG' : (n.apply op).folders[j]? = some G')
+    (hf : G.files[k]? = some f) (hf' : G'.files[k]? = some f') (hne : f'.visible ≠ f.visible) :
+    fileScanCompletes n op G f = true ∧ f'.visible = f.actual ∧ f'.name = f.name ∧ G'.name = G.name := by
+  rw [apply_folders, List.getElem?_map, hG] at hG'
+  simp only [Option.map_some, Option.some.injEq] at hG'
+  subst hG'
+  rw [folderEff_files, List.getElem?_map, hf] at hf'
+  simp only [Option.map_some, Option.some.injEq] at hf'
+  subst hf'
+  have h := fileEff_visible n op G f
+  by_cases hc : fileScanCompletes n op G f = true
+  · simp only [hc, if_true] at h
+    exact ⟨hc, h, fileEff_name n op G f, folderEff_name n op G⟩
+  · simp only [hc, if_false] at h
+    exact absurd h hne
+
+theorem C14_file_scan_sets_visible (n : Node) (op : Op) (j k : Nat) (G : Folder) (f : File)
+    (hG : n.folders[j]? = some G) (hf : G.files[k]? = some f) (hc : fileScanCompletes n op G f = true) :
+    ∃ G' f', (n.apply op).folders[j]? = some G' ∧ G'.files[k]? = some f' ∧ f'.visible = f.actual := by
+  refine ⟨folderEff n op G, fileEff n op G f, ?_, ?_, ?_⟩
+  · rw [apply_folders, List.getElem?_map, hG]; rfl
+  · rw [folderEff_files, List.getElem?_map, hf]; rfl
+  · rw [fileEff_visible, hc]; rfl
+
 end Primaite.Health
